@@ -434,8 +434,90 @@ def check_C17(tier, seed):
                          "arc vectors with every valid first pair x boundary arcs up to 2^32-1: set_arcs (octets = X.690 8.19), get_arcs with enough and with too few slots, parse of the dotted text; time_t at calendar edges (epoch, leap days, century rules, 2038, 2106, years 1 and 9999) x seconds of day x fractional digits x 8 POSIX TZ settings (half-hour, 45-minute, DST, +14h): forced-GMT GeneralizedTime / UTCTime text and back")
 
 
+# ---- compiler: legality (C11) ----------------------------------------------------------------
+ASSUME_COMPILER = ["Asn1Tags.tla (AUTOMATIC tagging transformation, IMPLICIT-on-CHOICE rule, outermost tag sets, X.680 25.6 / 27.3 / 29.3 distinctness) is the reference",
+                   "TLC, the Json module, the python glue that renders type terms to ASN.1 text",
+                   "bounded module universe of spec/MC_Legal.tla"]
+
+
+def run_asn1c(text, flags=(), name="m.asn1"):
+    """one compiler run in a scratch directory; returns dict(exit, signal, diag, files)"""
+    import subprocess, tempfile, shutil
+    m = lib.ensure_mirror()
+    d = tempfile.mkdtemp(prefix="a1c-", dir=lib.SCRATCH)
+    try:
+        open(os.path.join(d, name), "w").write(text)
+        try:
+            r = subprocess.run([m["asn1c"], "-S", m["skeletons"], "-no-gen-example"] + list(flags) + [name], cwd=d,
+                               stdout=subprocess.PIPE, stderr=subprocess.PIPE, text=True, errors="replace", timeout=60)
+            rc = r.returncode
+            err = r.stderr
+        except subprocess.TimeoutExpired:
+            rc, err = -14, "timeout"
+        files = [f for f in os.listdir(d) if f.endswith((".c", ".h")) ]
+        return {"exit": rc if rc >= 0 else 0, "signal": -rc if rc < 0 else 0, "diag": bool(err.strip()), "files": len(files),
+                "stderr": err[-300:]}
+    finally:
+        shutil.rmtree(d, ignore_errors=True)
+
+
+def check_C11(tier, seed):
+    from concurrent.futures import ThreadPoolExecutor
+    t0 = time.time()
+    res = Result("C11")
+    known = lib.load_findings("C11")
+    consts = ["MaxComps = 3", "Rich = %s" % ("TRUE" if tier == "thorough" else "FALSE")]
+    _, scns, st = lib.generate("MC_Legal", consts, ["Export"], workers=4)
+    res.states += st["distinct"]
+    res.transitions += st["states"]
+    verdicts = {True: 0, False: 0}
+    for s in scns:
+        verdicts[bool(s["legal"])] += 1
+    if not verdicts[True] or not verdicts[False]:
+        raise Infra("vacuous module universe: %r" % verdicts)
+    lib.ensure_mirror()
+
+    def one(s):
+        r = run_asn1c(Module(s["mod"]).text())
+        r.update({"id": s["id"], "a": "Asn1c"})
+        return r
+    with ThreadPoolExecutor(lib.NCPU) as ex:
+        evs = list(ex.map(one, scns))
+    mism, tot = lib.judge("MC_Legal", None, scns, evs, constants=consts, shards=8)
+    mism = expand(mism)
+    res.states += tot["distinct"]
+    res.transitions += tot["states"]
+    res.sessions += len(scns)
+    res.events += len(evs)
+    byid = {s["id"]: s for s in scns}
+    evid = {e["id"]: e for e in evs}
+    for s in scns:
+        res.distinct.add(json.dumps(s["mod"]["defs"][-1], sort_keys=True) + s["mod"]["tagging"] + s["fault"])
+    res.samples.append({"module_text": Module(scns[len(scns) // 2]["mod"]).text(), "legal": scns[len(scns) // 2]["legal"], "event": evid[scns[len(scns) // 2]["id"]]})
+    for m in mism:
+        s = byid[m["id"]]
+        top = s["mod"]["defs"][-1]["t"]
+        sig = {"op": "asn1c", "kind": top["k"], "tagging": s["mod"]["tagging"], "fault": s["fault"], "reason": m["reason"]}
+        f = None
+        for kf in known:
+            for alt in (kf["match"] if isinstance(kf["match"], list) else [kf["match"]]):
+                mt = dict(alt)
+                pred = mt.pop("pred", None)
+                if mt.get("op") == "asn1c" and lib.finding_matches({"match": mt}, sig) and (not pred or F.MPREDS[pred](s, evid[m["id"]])):
+                    f = kf
+        if f:
+            res.known[f["id"]] = res.known.get(f["id"], 0) + 1
+        else:
+            res.violations.append((sig, {"property": "C11", "signature": sig, "module": s["mod"], "module_text": Module(s["mod"]).text(),
+                                         "legal_per_spec": s["legal"], "event": evid[m["id"]]}))
+    res.notes["verdicts"] = {"legal": verdicts[True], "illegal": verdicts[False]}
+    return finish(res, tier, seed, "model_checking", t0,
+                  "TLC enumerates (breadth-first over the module-construction state machine) every CHOICE / SET / SEQUENCE of 2..3 components over a tag palette (untagged, context / application tags, IMPLICIT / EXPLICIT, references to untagged and tagged CHOICEs) x OPTIONAL flags x {EXPLICIT, IMPLICIT, AUTOMATIC} TAGS x one injected fault (duplicate identifier, duplicate enumeration name / value, dangling reference, none); asn1c is run on each module; distinct = distinct (top type, tagging, fault)",
+                  ASSUME_COMPILER, exhaustive=True)
+
+
 CHECKS = {"C01": check_C01, "C02": check_C02, "C03": check_C03, "C04": check_C04, "C05": check_C05, "C06": check_C06, "C07": check_C07, "C08": check_C08, "C14": check_C14,
-          "C16": check_C16, "C17": check_C17}
+          "C11": check_C11, "C16": check_C16, "C17": check_C17}
 
 
 def replay(prop, path):
